@@ -411,6 +411,9 @@ func (q *Queue) tryDelivery(meta *QueueMetadata, header textproto.Header, body b
 		rcptErr, ok := partialErr.Errs[rcpt]
 		if !ok {
 			dl.Msg("delivered", "rcpt", rcpt, "attempt", meta.TriesCount[rcpt]+1)
+			// The counter of a settled recipient must not linger: the start-up
+			// scan derives the retry time from the smallest counter it finds.
+			delete(meta.TriesCount, rcpt)
 			continue
 		}
 
